@@ -409,3 +409,48 @@ def closed_shell(rxn):
         if any(a.GetNumRadicalElectrons() != 0 for a in m.GetAtoms()):
             return False
     return True
+
+
+def run_api(inputs, batch_size=None, t=0):
+    """Balancer.rebalance through its public batching API, with recorders; inputs may be str or dict rows."""
+    from synrbl import Balancer
+    rec = Recorder().install()
+    st = {}
+    try:
+        rows = Balancer(n_jobs=1, confidence_threshold=t, batch_size=batch_size).rebalance(copy.deepcopy(list(inputs)), output_dict=True, stats=st)
+        err = None
+    except Exception as e:
+        rows, err = None, "%s: %s" % (type(e).__name__, e)
+    finally:
+        rec.uninstall()
+    out = []
+    for r in rows or []:
+        c = r.get("confidence")
+        out.append({"input_reaction": r.get("input_reaction"), "reaction": r.get("reaction"), "solved": bool(r.get("solved")),
+                    "solved_by": r.get("solved_by") if isinstance(r.get("solved_by"), str) else None,
+                    "issue": r.get("issue") if isinstance(r.get("issue"), str) else None,
+                    "rules": list(r["rules"]) if isinstance(r.get("rules"), list) else None,
+                    "confidence": None if c is None or (isinstance(c, float) and math.isnan(c)) else float(c)})
+    tables = {k: [[kk, vv] for kk, vv in v.items()] for k, v in rec.t.items()}
+    return {"inputs": list(inputs), "batch_size": batch_size, "t": t, "rows": out, "stats": st, "tables": tables,
+            "conflicts": len(rec.conflicts), "error": err}
+
+
+BATCH_HDR = PIPE_HDR.replace("Model.Pipeline ", "Model.Pipeline Model.Batch ")
+BATCH_DEFS = PIPE_DEFS + """
+Definition bcase (o : oracles) (t : Z) (tmsg : string) (bs : option nat) (ins : list string)
+   (erows : list (string * string * bool * option string * option string * option (list string) * option Z)) (est : list nat) : bool :=
+  let '(rows, st) := rebalance (run o rules_manager ban_atoms_canon 80 t tmsg) bs ins in
+  list_eqb2 row_eq rows erows && stats_eq st est.
+"""
+
+
+def coq_case_api(b):
+    """Gallina boolean: Model/Batch.rebalance over Model/Pipeline.run reproduces this public-API run."""
+    head = coq_case({"tables": b["tables"], "error": None, "rows": [], "stats": {"x": 1}, "t": b["t"], "inputs": []})
+    o = head[len("pcase "):head.index(" %s %s" % (cz(fkey(b["t"])), cstr(tmsg(b["t"]))))]
+    rows = clist(b["rows"], lambda r: "(%s, %s, %s, %s, %s, %s, %s)" % (
+        cstr(r["input_reaction"]), cstr(r["reaction"]), cbool(r["solved"]), copt(r["solved_by"], cstr), copt(r["issue"], cstr),
+        copt(r["rules"], lambda l: clist(l, cstr)), copt(r["confidence"], lambda c: cz(fkey(c)))))
+    return "bcase %s %s %s %s %s %s %s" % (o, cz(fkey(b["t"])), cstr(tmsg(b["t"])), copt(b["batch_size"], cnat), clist(b["inputs"], cstr),
+                                           rows, clist([b["stats"].get(k, 0) for k in STAT_KEYS], cnat))
